@@ -220,13 +220,15 @@ PROPS['C10'] = dict(
     claim='FieldOperatorPart::compute (real Eigen dense product / sparseView / prune from the IR), the operator prepare() bimaps, '
           'FieldOperatorContainer::computeAll and EnsembleAverage are executed with SYMBOLIC eigenvector matrices: every stored block equals '
           'U_to^T O U_from within the documented tolerance, row/column-major copies agree, the sparse representation invariant holds, '
-          'container-produced annihilation parts are the adjoints of the creation parts.',
+          'container-produced annihilation parts are the adjoints of the creation parts.  The same for the complex-element build of the library '
+          '(units fopc_*: symbolic complex eigenvectors, U_to^+ O U_from, Hermitian conjugates, both storage copies).',
     bounds={Q: 'Hubbard atom (1x1 blocks), spinless dimer (blocks 1,2,1 with a symbolic 2x2 eigenvector matrix); c+_i, c_i, c+_i c_j for all i,j; '
                'one-by-one and container paths', T: 'additionally one 4x4 block (symmetries ignored), time-capped'},
     assumptions=['double read as exact real', 'eigenvector matrices are arbitrary real matrices (orthonormality is not needed for the rotation '
                  'identity; the CAR then follow from C05 and U^T U = 1, mathematical step)'],
     outside=['{c_i,c+_j} = delta_ij assembled over blocks as a solver query (needs U^T U = 1 as polynomial constraints; not attempted)',
-             'blocks larger than 2x2 in the quick tier', 'complex build'],
+             'blocks larger than 2x2 in the quick tier', 'complex build: only c+_i / c_i (one by one and container) on the spinless dimer and the Hubbard atom are covered; '
+             'quadratic operators and the ensemble average in the complex build are not'],
     units=[dict(name='fop_m0_single', harness='h_fop', defs=['MODEL=0', 'PATH=0'], split={'op': R(6)}, max_loop=20000,
                 witnesses=['done', 'creation_parts', 'ensemble_average'], validate=[{'op': 1}, {'op': 3}]),
            dict(name='fop_m1_single', harness='h_fop', defs=['MODEL=1', 'PATH=0'], split={'op': R(6)}, max_loop=20000,
@@ -240,7 +242,14 @@ PROPS['C10'] = dict(
            dict(name='fop_m2_oneblock_identity_container', harness='h_fop', defs=['MODEL=2', 'PATH=1', 'VECS=0'], max_loop=20000,
                 witnesses=['done', 'annihilation_parts']),
            dict(name='fop_m2_single', harness='h_fop', defs=['MODEL=2', 'PATH=0'], split={'op': R(6)}, max_loop=20000, tiers=[T],
-                max_paths=400, witnesses=['done'])],
+                max_paths=400, witnesses=['done']),
+           # complex-element build of the library (-DPOMEROL_COMPLEX_MATRIX_ELEMENTS): symbolic COMPLEX eigenvector matrices
+           dict(name='fopc_m1_single', harness='h_fopc', complex=True, defs=['MODEL=1', 'PATH=0'], split={'op': R(2)}, max_loop=20000,
+                witnesses=['done', 'annihilation_parts'], validate=[{'op': 0, 'U1_0_0': '3/5', 'U1_0_1': '1/5', 'U1_1_0': '-1/2', 'U1_1_1': '2/5', 'U1_2_0': '1/3', 'U1_2_1': '-3/4', 'U1_3_0': '2/7', 'U1_3_1': '1/9'}]),
+           dict(name='fopc_m1_container', harness='h_fopc', complex=True, defs=['MODEL=1', 'PATH=1'], split={'op': R(2)}, max_loop=20000,
+                witnesses=['done', 'annihilation_parts'], validate=[{'op': 0, 'U1_0_0': '3/5', 'U1_0_1': '1/5', 'U1_1_0': '-1/2', 'U1_1_1': '2/5', 'U1_2_0': '1/3', 'U1_2_1': '-3/4', 'U1_3_0': '2/7', 'U1_3_1': '1/9'}]),
+           dict(name='fopc_m0_container', harness='h_fopc', complex=True, defs=['MODEL=0', 'PATH=1'], split={'op': R(2)}, max_loop=20000,
+                witnesses=['done', 'annihilation_parts'])],
 )
 
 PROPS['C11'] = dict(
@@ -272,7 +281,8 @@ PROPS['C08'] = dict(
     claim='The numerical agreement of two complete runs cannot be encoded (it passes twice through the eigen-solver).  Decided instead are '
           'the structural conditions under which the observables do not depend on the partition, for ARBITRARY admissible block bimaps '
           '(not only those of the default partition): the four world-stripe selectors select exactly the block tuples on which the operator '
-          'product can be non-zero; splitting a block pair leaves the sum of part values unchanged; (C07 units:) every accepted partition '
+          'product can be non-zero; splitting a block pair leaves the sum of Green\'s-function part values unchanged, and refining one block into two leaves the '
+          'sum of susceptibility part values unchanged (zero-energy pole weight included, z = 0 and z != 0); (C07 units:) every accepted partition '
           'has the single-target property.',
     bounds={Q: 'G / susceptibility / ensemble-average selectors over 3 blocks (all partial injections incl. self-maps and non-monotone maps), '
                '2PGF selector over 2 blocks (all 7^4 bimap combinations), splitting of a 2x2 block pair',
@@ -288,7 +298,11 @@ PROPS['C08'] = dict(
            dict(name='select_2pgf_b2', harness='h_select', defs=['SEL=3', 'NBLOCKS=2', 'SYMRET=0'], split={'c10': _IMG2, 'c11': _IMG2, 'c20': _IMG2},
                 witnesses=['done', 'two_cycles']),
            dict(name='gfpart_split', harness='h_gfpart', defs=['OUTER=2', 'INNER=2', 'REGIME=6'], split={'C': [0, 1, 8, 9], 'CX': [0, 1, 8, 9]},
-                witnesses=['computed', 'split_compared'], validate=[{'C': 9, 'CX': 9}])],
+                witnesses=['computed', 'split_compared'], validate=[{'C': 9, 'CX': 9}]),
+           dict(name='suscpart_split_z', harness='h_suscpart', defs=['OUTER=2', 'INNER=2', 'REGIME=6', 'ZCASE=0'], split={'A': R(16), 'B': R(16)},
+                witnesses=['computed', 'split_compared', 'degenerate_pair_across_blocks'], validate=[{'A': 6, 'B': 6}, {'A': 15, 'B': 15, 'Ein1': '1/3'}]),
+           dict(name='suscpart_split_z0', harness='h_suscpart', defs=['OUTER=2', 'INNER=2', 'REGIME=6', 'ZCASE=1'], split={'A': R(16), 'B': R(16)},
+                witnesses=['computed', 'split_compared', 'degenerate_pair_across_blocks'], validate=[{'A': 6, 'B': 6}])],
 )
 
 PROPS['C19'] = dict(
@@ -326,7 +340,7 @@ PROPS['C02'] = dict(
     assumptions=['double read as exact real', 'the multi-term of the header documentation IS the triple Fourier integral (Hafermann et al. 2009; '
                  'uses w_j = w_i exp(-beta(E_j-E_i)) and exp(i beta w) = -1: mathematical step, not derivable without transcendental reasoning)',
                  'a part value is the sum of its terms (composition of B and D)'],
-    outside=['merging of terms whose poles agree within 1e-8 WITHOUT being equal (weighted pole average; merging of terms with equal poles is decided in the termmerge units)', 'the MPI reduction of the frequency table on several ranks (C06; the single-rank table path is unit 2pgftable)', 'complex build'],
+    outside=['merging ACROSS stored quadruples inside TwoParticleGFPart::compute when poles agree within 1e-8 (the reduction rule itself - sum of coefficients, mean of the poles, negligibility - is decided at term-list level in the termmerge units, for equal poles and for poles within 1e-9 of each other)', 'the MPI reduction of the frequency table on several ranks (C06; the single-rank table path is unit 2pgftable)', 'complex build'],
     units=[dict(name='2pgfpart_1111', harness='h_2pgfpart', defs=[], split={'perm': R(6), 'O1': [0, 1], 'O2': [0, 1]},
                 witnesses=['computed', 'done', 'no_quadruple'], validate=[{'perm': 3, 'O1': 1, 'O2': 1, 'O3': 1, 'CX4': 1}]),
            dict(name='2pgfpart_2211_patterns', harness='h_2pgfpart', defs=['DIM1=2', 'DIM2=2'], concrete=True,
@@ -343,16 +357,24 @@ PROPS['C02'] = dict(
                 witnesses=['done'] + (['resonant_branch', 'non_resonant_branch'] if t >= 2 else []),
                 validate=[{'perm': 2, 'freq': 1, 'P1': '1/3', 'P2': '-1/3', 'P3': '1/5'}]) for t in range(4)] +
           [
-           dict(name='2pgftable', harness='h_2pgftable', defs=[], split={'quad': R(16), 'clear': R(2)}, max_loop=200000,
+           dict(name='2pgftable', harness='h_2pgftable', defs=[], split={'quad': R(16), 'clear': R(2), 'beta': [2]}, max_loop=200000, job_timeout=300,
                 witnesses=['done', 'vanishing_component', 'non_vanishing_component'],
                 validate=[{'quad': 5, 'clear': 0, 'beta': 2, 'w0_0': '1/10', 'w1_0': '2/5', 'w2_0': '3/10', 'w3_0': '1/5'},
                           {'quad': 3, 'clear': 1, 'beta': 2, 'w0_0': '1/10', 'w1_0': '2/5', 'w2_0': '3/10', 'w3_0': '1/5'}]),
-           dict(name='2pgftable_symlevels', harness='h_2pgftable', defs=['SYME=1'], split={'quad': [3, 5, 6, 10], 'clear': R(2)}, max_loop=200000, tiers=[T],
+           dict(name='2pgftable_symbeta', harness='h_2pgftable', defs=[], split={'quad': [0, 3, 5, 6, 9, 10, 15], 'clear': R(2)}, max_loop=200000, tiers=[T], job_timeout=1500,
+                witnesses=['done', 'vanishing_component', 'non_vanishing_component']),
+           dict(name='2pgftable_symlevels', harness='h_2pgftable', defs=['SYME=1'], split={'quad': [3, 5, 10], 'clear': R(2)}, max_loop=200000, tiers=[T], job_timeout=1500,
                 witnesses=['done', 'vanishing_component', 'non_vanishing_component']),
            dict(name='termmerge_nonres', harness='h_termmerge', defs=['KIND=1', 'NADD=3'], split={'p0': R(2), 'p1': R(2), 'p2': R(2)},
                 witnesses=['done', 'merged_term_dropped', 'merged_term_kept', 'two_terms'], validate=[{'p0': 0, 'p1': 0, 'p2': 0, 'c0': 2, 'c1': -2, 'c2': 3, 'Pa': 1, 'Pb': '-1/2', 'zre': '1/3', 'zim': '1/2'}, {'p0': 0, 'p1': 1, 'p2': 0, 'c0': 2, 'c1': -2, 'c2': 3, 'Pa': 1, 'Pb': '-1/2', 'zre': '1/3', 'zim': '1/2'}]),
            dict(name='termmerge_res', harness='h_termmerge', defs=['KIND=2', 'NADD=3'], split={'p0': R(2), 'p1': R(2), 'p2': R(2)},
                 witnesses=['done', 'merged_term_dropped', 'merged_term_kept', 'two_terms'], validate=[{'p0': 0, 'p1': 0, 'p2': 0, 'c0': 2, 'c1': -2, 'c2': 3, 'd0': 1, 'd1': '1/2', 'd2': -3, 'Pa': 1, 'Pb': '-1/2', 'zre': '1/3', 'zim': '1/2'}]),
+           dict(name='termmerge_nonres_near', harness='h_termmerge', defs=['KIND=1', 'NADD=3', 'NEAR=1'], split={'p0': R(2), 'p1': R(2), 'p2': R(2)},
+                witnesses=['done', 'merged_term_dropped', 'merged_term_kept', 'two_terms']),
+           dict(name='termmerge_res_near', harness='h_termmerge', defs=['KIND=2', 'NADD=3', 'NEAR=1'], split={'p0': R(2), 'p1': R(2), 'p2': R(2)},
+                witnesses=['done', 'merged_term_dropped', 'merged_term_kept', 'two_terms'],
+                validate=[{'p0': 0, 'p1': 0, 'p2': 0, 'c0': 2, 'c1': -2, 'c2': 3, 'd0': 1, 'd1': '1/2', 'd2': -3, 'Pa': 1, 'Pb': '-1/2', 'zre': '1/3', 'zim': '1/2',
+                           'e0': '1/2000000000', 'e1': '-1/3000000000', 'e2': '1/4000000000'}]),
            dict(name='termmerge_res_4', harness='h_termmerge', defs=['KIND=2', 'NADD=4'], split={'p0': R(2), 'p1': R(2), 'p2': R(2), 'p3': R(2)},
                 witnesses=['done', 'merged_term_dropped', 'merged_term_kept', 'two_terms'], tiers=[T]),
           ],
@@ -468,6 +490,16 @@ PROPS['C06'] = dict(
            _mpi_unit('chi_nosplit_p3_c1', 3, 1, 1, tiers=(T,)), _mpi_unit('chi_split_p3_c3', 3, 2, 3, tiers=(T,))] +
           [dict(u, name='c16_' + u['name']) for u in PROPS['C16']['units'] if u['name'] in ('dispatch_p2', 'dispatch_p3')],
 )
+
+# "after a bulk computation every element the container lists is evaluable" includes the distributed bulk computation
+PROPS['C13']['units'] += [dict(u, name='c06_' + u['name']) for u in PROPS['C06']['units'] if u['name'] in ('chi_split_p2_c3', 'chi_split_p3_c2')]
+PROPS['C13']['claim'] += ('  Bulk computation of the real TwoParticleGFContainer (units c06_chi_split_*): after computeAll(split) on 2-3 simulated ranks with 2-3 '
+                          'stored components every listed component is evaluable on every rank and equals a serial reference computation.')
+PROPS['C13']['outside'] = [o for o in PROPS['C13']['outside'] if 'MPI distribution' not in o] + ['MPI distribution of a bulk computation beyond 3 ranks / 3 components']
+# the eigen-data "reported" by C03 are those every rank holds after the distributed Hamiltonian steps
+PROPS['C03']['units'] += [dict(u, name='c06_' + u['name']) for u in PROPS['C06']['units'] if u['name'] in ('ham_p2',)]
+PROPS['C03']['claim'] += ('  Distributed diagonalisation (unit c06_ham_p2): after Hamiltonian::prepare/compute on 2 simulated ranks every rank holds the '
+                          'eigenvalues and eigenvector matrices of a local serial computation, for every delivery order of the dispatcher messages.')
 
 _BET = [1, '1/2']
 PROPS['C12'] = dict(
